@@ -194,10 +194,12 @@ def suite_ctx(ctx):
             conn.specific_wait_frame = boom
             c.tester_present()
 
-    for path in ('normal', 'exception', 'timeout', 'negative', 'keyboard-interrupt', 'system-exit', 'base-exception', 'interrupt-while-waiting',
-                 'generator-closed', 'return', 'break'):
+    paths = ('normal', 'exception', 'timeout', 'negative', 'keyboard-interrupt', 'system-exit', 'base-exception', 'interrupt-while-waiting',
+             'generator-closed', 'return', 'break')
+    # every exit path, with a connection the context manager opens itself and with one the application had opened already
+    for path, pre_open in [(p_, False) for p_ in paths] + [(p_, True) for p_ in paths]:
         conn = cl.stub.StubConn(cl.CLOCK)
-        conn.opened = False
+        conn.opened = pre_open
         raised = None
         entered = []
         try:
@@ -228,14 +230,15 @@ def suite_ctx(ctx):
         except BaseException as e:  # noqa
             raised = e
         s.evaluations += 1
-        s.distinct.add(path)
+        label = path + (' (connection already open when the block is entered)' if pre_open else '')
+        s.distinct.add(label)
         if entered != [True]:
-            s.fail({'site': 'Client.__enter__', 'input': path, 'observed': 'connection not opened', 'required': 'opened'})
+            s.fail({'site': 'Client.__enter__', 'input': label, 'observed': 'connection not opened', 'required': 'opened'})
         if conn.is_open() or conn.close_calls != 1:
-            s.fail({'site': 'Client.__exit__', 'input': path, 'observed': 'open=%s close_calls=%d' % (conn.is_open(), conn.close_calls),
+            s.fail({'site': 'Client.__exit__', 'input': label, 'observed': 'open=%s close_calls=%d' % (conn.is_open(), conn.close_calls),
                     'required': 'closed exactly once'})
         if path not in ('normal', 'generator-closed', 'return', 'break') and raised is None:
-            s.fail({'site': 'Client.__exit__', 'input': path, 'observed': 'exception swallowed', 'required': 'exception propagates'})
+            s.fail({'site': 'Client.__exit__', 'input': label, 'observed': 'exception swallowed', 'required': 'exception propagates'})
     s.exhaustive = True
     return s
 
